@@ -3,6 +3,7 @@
 package verifharness
 
 import (
+	"github.com/failsafe-go/failsafe-go/hedgepolicy"
 	"context"
 	"errors"
 	"fmt"
@@ -293,6 +294,41 @@ func TestDrive_C15(t *testing.T) {
 	bad2 := stressIsDone(trials)
 	w.Add(func(id int) string { return fmt.Sprintf("CaseStress %d 4 %d %d", id, trials, bad2) },
 		map[string]any{"stress": "poll IsDone(), then non-blocking receive on Done(); bad = IsDone() true while Done() not closed", "trials": trials, "bad": bad2}, true, "stress-isdone")
+	// 4. Cancel() lands while a hedged run is between two waits and the first attempt's result is already in the channel:
+	// forced from the OnHedge listener, every round must report ErrExecutionCanceled
+	rounds := 24
+	if thorough {
+		rounds = 400
+	}
+	bad3 := 0
+	for i := 0; i < rounds; i++ {
+		synctest.Test(t, func(t *testing.T) {
+			var ar failsafe.ExecutionResult[int]
+			release := make(chan struct{})
+			hp := hedgepolicy.BuilderWithDelay[int](10 * time.Millisecond).WithMaxHedges(1).
+				OnHedge(func(failsafe.ExecutionEvent[int]) {
+					close(release)  // the first attempt returns now ...
+					synctest.Wait() // ... and its result is in the channel
+					ar.Cancel()
+				}).Build()
+			n := 0
+			ar = failsafe.NewExecutor[int](hp).GetAsync(func() (int, error) {
+				n++
+				if n == 1 {
+					<-release
+					return 1, nil
+				}
+				time.Sleep(time.Millisecond)
+				return 2, nil
+			})
+			if _, err := ar.Get(); !errors.Is(err, failsafe.ErrExecutionCanceled) {
+				bad3++
+			}
+			time.Sleep(time.Second)
+		})
+	}
+	w.Add(func(id int) string { return fmt.Sprintf("CaseStress %d 5 %d %d", id, rounds, bad3) },
+		map[string]any{"scenario": "Cancel() from OnHedge while the first attempt's result is already pending; bad = rounds that did not report ErrExecutionCanceled", "rounds": rounds, "bad": bad3}, true, "cancel-vs-pending-hedge-result")
 	w.Stat(fmt.Sprintf("stress_trials=%d", 2*trials))
 	w.Close("(1) every scenario is run through a sync entry point and through the matching async entry point (result read with Get), then re-run asynchronously with ExecutionResult.Cancel() fired at instants taken from the run's own event times (+-1ns, midpoints); complete logs compared with the model; (2) the future protocol with 1-16 concurrent readers (Get / Result+Error / Done then Get) arriving before and around completion, for all four async entry points, successful and failing executions; (3) real-time stress of the Cancel-vs-InitializeRetry window and of the IsDone-vs-Done window. Non-trivial = a retry or a reported cancellation occurred, two or more readers, or a stress batch; distinct by inputs.", nil)
 }
